@@ -40,6 +40,7 @@ type base64LineBreaker struct {
 //   - numBytes: The number of bytes written.
 //   - err: An error if one occurred during the write operation.
 func (l *base64LineBreaker) Write(data []byte) (numBytes int, err error) {
+	verifHook("b64.write", len(data), l.used)
 	if l.out == nil {
 		err = errors.New("no io.Writer set for base64LineBreaker")
 		return
@@ -82,6 +83,7 @@ func (l *base64LineBreaker) Write(data []byte) (numBytes int, err error) {
 // Returns:
 //   - err: An error if one occurred during the final write operation.
 func (l *base64LineBreaker) Close() (err error) {
+	verifHook("b64.close", 0, l.used)
 	if l.used > 0 {
 		_, err = l.out.Write(l.line[0:l.used])
 		if err != nil {
